@@ -207,4 +207,78 @@ def usesOnce : List Op → Bool
   | .serviceTxPktsOnce _ :: _ => true
   | _ :: ops => usesOnce ops
 
+/-! ## receive side (`GramStack._serviceOneReceived`, `Stack.serviceReceives` / `serviceReceivesOnce`,
+`UdpStack._serviceOneRxPkt` / `messagize`, `serviceRxPkts`, `RemoteDevice.receive`) -/
+
+/-- answer of the socket to one `handler.receive()` (`SocketUdpNb.receive` over `recvfrom`) -/
+inductive Recv where
+  | dgram (p : Pkt)        -- a datagram with a non-empty payload `p.id` from source `p.dst`
+  | empty (src : Nat)      -- a zero-length datagram: `(b'', sa)`
+  | nothing                -- EAGAIN / EWOULDBLOCK: `(b'', None)`
+  | err (e : Nat)          -- any other socket.error
+deriving DecidableEq, Repr
+
+structure RxState where
+  opened : Bool
+  remotes : List Nat       -- source addresses with a remote device (`.haRemotes`)
+  rxPkts : List Pkt        -- `(packet, ha)` duples
+  rxMsgs : List Pkt        -- messages handed to `.rxMsgs` by `remote.receive`
+  taken : List Pkt         -- history variable: non-empty datagrams the socket handed over, in order
+  popped : List Pkt        -- history variable: packets taken off `.rxPkts` by `serviceRxPkts`
+deriving DecidableEq, Repr
+
+def RxState.init : RxState := ⟨true, [], [], [], [], []⟩
+
+/-- `while self.handler.opened: if not self._serviceOneReceived(): break`; an exhausted script answers
+"nothing".  Result: state, escaped errno. -/
+def rxLoop : List Recv → RxState → RxState × Option Nat
+  | [], s => (s, none)
+  | r :: rest, s =>
+    match r with
+    | .dgram p => rxLoop rest { s with rxPkts := s.rxPkts ++ [p], taken := s.taken ++ [p] }
+    | .empty _ => (s, none)                    -- `if not raw: return False`
+    | .nothing => (s, none)
+    | .err e => if e ∈ transientErrnos then (s, none) else (s, some e)
+
+def serviceReceives (s : RxState) (env : List Recv) : RxState × Option Nat :=
+  if s.opened then rxLoop env s else (s, none)
+
+/-- `serviceReceivesOnce`: one `_serviceOneReceived` -/
+def serviceReceivesOnce (s : RxState) (env : List Recv) : RxState × Option Nat :=
+  if s.opened then
+    match env with
+    | [] => (s, none)
+    | r :: _ => rxLoop [r] s
+  else (s, none)
+
+/-- `while self.rxPkts: self._serviceOneRxPkt()`: a packet from a source without a remote is dropped -/
+def serviceRxPkts (s : RxState) : RxState :=
+  { s with rxPkts := [], popped := s.popped ++ s.rxPkts,
+           rxMsgs := s.rxMsgs ++ s.rxPkts.filter (fun p => s.remotes.contains p.dst) }
+
+inductive ROp where
+  | addRemote (src : Nat)
+  | serviceReceives (env : List Recv)
+  | serviceReceivesOnce (env : List Recv)
+  | serviceRxPkts
+  | close
+  | reopen
+deriving DecidableEq, Repr
+
+def rstep (s : RxState) : ROp → RxState × Option Nat
+  | .addRemote src => ({ s with remotes := if s.remotes.contains src then s.remotes else s.remotes ++ [src] }, none)
+  | .serviceReceives env => serviceReceives s env
+  | .serviceReceivesOnce env => serviceReceivesOnce s env
+  | .serviceRxPkts => (serviceRxPkts s, none)
+  | .close => ({ s with opened := false }, none)
+  | .reopen => ({ s with opened := true }, none)
+
+def rrun : RxState → List ROp → RxState × List (Option Nat)
+  | s, [] => (s, [])
+  | s, op :: ops =>
+    let (s', e) := rstep s op
+    let (s'', es) := rrun s' ops
+    (s'', e :: es)
+
+
 end Ioflo.Gram
